@@ -1239,3 +1239,615 @@ Proof.
   rewrite (proj1 height_norm_both) in Hdc. unfold ctop in Hdc. rewrite (Hdc Hh).
   destruct r; reflexivity.
 Qed.
+
+(* ================================================================ 6. the response reader *)
+
+Lemma len_ok_srange {A} (l : list A) : len_ok l = true -> in_srange 4 (Z.of_nat (List.length l)).
+Proof. unfold len_ok. apply in_srangeb_spec. Qed.
+
+Lemma read_str_enc s r : len_ok s = true -> read_str (enc (WStr s) ++ r) = Some (s, r).
+Proof.
+  intro H. pose proof (len_ok_srange s H) as Hr. apply in_srange_4 in Hr. unfold read_str. cbn [enc]. rewrite <- app_assoc.
+  rewrite get_s_put by (try (apply in_srange_4; assumption); lia). unfold take_z.
+  destruct (Z.ltb_spec (Z.of_nat (List.length s)) 0) as [E|_]; [lia|]. cbn [orb].
+  rewrite app_length.
+  destruct (Z.ltb_spec (Z.of_nat (List.length s + List.length r)) (Z.of_nat (List.length s))) as [E|_]; [lia|].
+  rewrite Nat2Z.id, firstn_app, Nat.sub_diag, firstn_all, skipn_app, Nat.sub_diag, skipn_all. cbn [firstn skipn].
+  rewrite app_nil_r. reflexivity.
+Qed.
+
+Lemma get1_code t r : get_be 1 (put_be 1 (code t) ++ r) = Some (code t, r).
+Proof. apply get_put. apply code_in_range1. Qed.
+
+Lemma gets2 id r : -32768 <= id < 32768 -> get_s 2 (put_be 2 id ++ r) = Some (id, r).
+Proof. intro H. apply get_s_put; [lia|]. apply in_srange_2. exact H. Qed.
+
+Lemma wsize_pos v : (1 <= wsize v)%nat.
+Proof. destruct v; cbn [wsize]; try lia. destruct fs as [|[[t i] x] r]; lia. Qed.
+
+Lemma enc_list_go_len l : (List.length l <= List.length (enc_list_go l))%nat.
+Proof.
+  induction l as [|x l IH]; [cbn; lia|].
+  change (enc_list_go (x :: l)) with (enc x ++ enc_list_go l).
+  rewrite app_length, enc_length. pose proof (wsize_pos x). cbn [List.length]. lia.
+Qed.
+
+Lemma enc_list_go_map {A} (e : A -> wval) l :
+  enc_list_go (map e l) = fold_right (fun x acc => enc (e x) ++ acc) [] l.
+Proof. induction l as [|x l IH]; [reflexivity|]. cbn [map]. change (enc_list_go (e x :: map e l)) with (enc (e x) ++ enc_list_go (map e l)). rewrite IH. reflexivity. Qed.
+
+(* ReadListBegin on a truthful header *)
+Lemma read_list_begin_enc et (l : list wval) r : len_ok l = true ->
+  read_list_begin (put_be 1 (code et) ++ put_be 4 (Z.of_nat (List.length l)) ++ enc_list_go l ++ r) =
+  Some (List.length l, enc_list_go l ++ r).
+Proof.
+  intro H. pose proof (len_ok_srange l H) as Hr. apply in_srange_4 in Hr. unfold read_list_begin.
+  assert (E : put_be 1 (code et) = [byte_of_Z (code et)]).
+  { cbn [put_be]. change (256 ^ Z.of_nat 0) with 1. rewrite Z.div_1_r. reflexivity. }
+  rewrite E. cbn [app]. rewrite get_s_put by (try (apply in_srange_4; assumption); lia).
+  destruct (Z.ltb_spec (Z.of_nat (List.length l)) 0) as [E1|_]; [lia|]. cbn [orb].
+  rewrite app_length. pose proof (enc_list_go_len l).
+  destruct (Z.ltb_spec (Z.of_nat (List.length (enc_list_go l) + List.length r)) (Z.of_nat (List.length l))) as [E2|_]; [lia|].
+  rewrite Nat2Z.id. reflexivity.
+Qed.
+
+(* ---- Generated ---- *)
+
+Lemma rg_stop n g rest : read_generated (S n) g true (x00 :: rest) = Some (g, rest).
+Proof. reflexivity. Qed.
+
+Lemma rg_content n g seen s rest : len_ok s = true ->
+  read_generated (S n) g seen (put_be 1 (code T_STRING) ++ put_be 2 1 ++ enc (WStr s) ++ rest) =
+  read_generated n (mkgenerated s (gn_name g) (gn_ip g)) true rest.
+Proof.
+  intro H. cbn [read_generated]. rewrite get1_code. change (code T_STRING =? 0) with false. cbn iota.
+  rewrite gets2 by lia.
+  change (key_is (nth 0 lay_generated nokey) (code T_STRING) 1) with true. cbn iota.
+  rewrite read_str_enc by exact H. reflexivity.
+Qed.
+
+Lemma rg_name n g seen s rest : len_ok s = true ->
+  read_generated (S n) g seen (put_be 1 (code T_STRING) ++ put_be 2 2 ++ enc (WStr s) ++ rest) =
+  read_generated n (mkgenerated (gn_content g) (Some s) (gn_ip g)) seen rest.
+Proof.
+  intro H. cbn [read_generated]. rewrite get1_code. change (code T_STRING =? 0) with false. cbn iota.
+  rewrite gets2 by lia.
+  change (key_is (nth 0 lay_generated nokey) (code T_STRING) 2) with false.
+  change (key_is (nth 1 lay_generated nokey) (code T_STRING) 2) with true. cbn iota.
+  rewrite read_str_enc by exact H. reflexivity.
+Qed.
+
+Lemma rg_ip n g seen s rest : len_ok s = true ->
+  read_generated (S n) g seen (put_be 1 (code T_STRING) ++ put_be 2 3 ++ enc (WStr s) ++ rest) =
+  read_generated n (mkgenerated (gn_content g) (gn_name g) (Some s)) seen rest.
+Proof.
+  intro H. cbn [read_generated]. rewrite get1_code. change (code T_STRING =? 0) with false. cbn iota.
+  rewrite gets2 by lia.
+  change (key_is (nth 0 lay_generated nokey) (code T_STRING) 3) with false.
+  change (key_is (nth 1 lay_generated nokey) (code T_STRING) 3) with false.
+  change (key_is (nth 2 lay_generated nokey) (code T_STRING) 3) with true. cbn iota.
+  rewrite read_str_enc by exact H. reflexivity.
+Qed.
+
+Lemma generated_rt g rest : generated_ok g = true ->
+  read_generated (S (List.length (enc (enc_generated g) ++ rest))) generated0 false (enc (enc_generated g) ++ rest) = Some (g, rest).
+Proof.
+  destruct g as [c nm ip]. unfold generated_ok. cbn [gn_content gn_name gn_ip]. intro H.
+  apply andb_true_iff in H as [H Hip]. apply andb_true_iff in H as [Hc Hnm].
+  assert (Hlen : (4 <= List.length (enc (enc_generated (mkgenerated c nm ip)) ++ rest))%nat).
+  { rewrite app_length, enc_length. unfold enc_generated, wstruct. cbn [gn_content gn_name gn_ip].
+    destruct nm, ip; cbn [emit lay_generated omap wsize]; lia. }
+  remember (List.length (enc (enc_generated (mkgenerated c nm ip)) ++ rest)) as n eqn:En. clear En.
+  do 4 (destruct n as [|n]; [lia|]).
+  unfold enc_generated, wstruct. cbn [gn_content gn_name gn_ip].
+  destruct nm as [nm|], ip as [ip|]; cbn [omap emit lay_generated oall] in *;
+    rewrite enc_struct_unfold, ?enc_fields_go_cons; change (enc_fields_go []) with [x00]; rewrite <- ?app_assoc.
+  - rewrite rg_content, rg_name, rg_ip by assumption. apply rg_stop.
+  - rewrite rg_content, rg_name by assumption. apply rg_stop.
+  - rewrite rg_content, rg_ip by assumption. apply rg_stop.
+  - rewrite rg_content by assumption. apply rg_stop.
+Qed.
+
+(* ---- Response ---- *)
+
+Lemma rr_stop n p rest : read_response (S n) p (x00 :: rest) = Some (p, rest).
+Proof. reflexivity. Qed.
+
+Lemma rr_error n p s rest : len_ok s = true ->
+  read_response (S n) p (put_be 1 (code T_STRING) ++ put_be 2 1 ++ enc (WStr s) ++ rest) =
+  read_response n (mkresp (Some s) (rs_contents p) (rs_warnings p)) rest.
+Proof.
+  intro H. cbn [read_response]. rewrite get1_code. change (code T_STRING =? 0) with false. cbn iota.
+  rewrite gets2 by lia.
+  change (key_is (nth 0 lay_response nokey) (code T_STRING) 1) with true. cbn iota.
+  rewrite read_str_enc by exact H. reflexivity.
+Qed.
+
+Lemma rr_contents n p gs rest : len_ok gs = true -> forallb generated_ok gs = true ->
+  read_response (S n) p (put_be 1 (code T_LIST) ++ put_be 2 2 ++ enc (w_structs enc_generated gs) ++ rest) =
+  read_response n (mkresp (rs_error p) (Some gs) (rs_warnings p)) rest.
+Proof.
+  intros Hl Hg. cbn [read_response]. rewrite get1_code. change (code T_LIST =? 0) with false. cbn iota.
+  rewrite gets2 by lia.
+  change (key_is (nth 0 lay_response nokey) (code T_LIST) 2) with false.
+  change (key_is (nth 1 lay_response nokey) (code T_LIST) 2) with true. cbn iota.
+  unfold w_structs. rewrite enc_list_unfold, <- !app_assoc.
+  assert (Hl' : len_ok (map enc_generated gs) = true) by (unfold len_ok in *; rewrite map_length; exact Hl).
+  rewrite read_list_begin_enc by exact Hl'. rewrite map_length, enc_list_go_map.
+  rewrite (rep_enc (fun b => read_generated (S (List.length b)) generated0 false b) (fun g => enc (enc_generated g)) gs rest).
+  - reflexivity.
+  - rewrite forallb_forall in Hg. apply Forall_forall. intros g Hin r. apply generated_rt. apply Hg. exact Hin.
+Qed.
+
+Lemma rr_warnings n p ws rest : len_ok ws = true -> forallb len_ok ws = true ->
+  read_response (S n) p (put_be 1 (code T_LIST) ++ put_be 2 3 ++ enc (w_strs ws) ++ rest) =
+  read_response n (mkresp (rs_error p) (rs_contents p) (Some ws)) rest.
+Proof.
+  intros Hl Hg. cbn [read_response]. rewrite get1_code. change (code T_LIST =? 0) with false. cbn iota.
+  rewrite gets2 by lia.
+  change (key_is (nth 0 lay_response nokey) (code T_LIST) 3) with false.
+  change (key_is (nth 1 lay_response nokey) (code T_LIST) 3) with false.
+  change (key_is (nth 2 lay_response nokey) (code T_LIST) 3) with true. cbn iota.
+  unfold w_strs. rewrite enc_list_unfold, <- !app_assoc.
+  assert (Hl' : len_ok (map WStr ws) = true) by (unfold len_ok in *; rewrite map_length; exact Hl).
+  rewrite read_list_begin_enc by exact Hl'. rewrite map_length, enc_list_go_map.
+  rewrite (rep_enc read_str (fun s => enc (WStr s)) ws rest).
+  - reflexivity.
+  - rewrite forallb_forall in Hg. apply Forall_forall. intros s Hin r. apply read_str_enc. apply Hg. exact Hin.
+Qed.
+
+(* decode (encode r) = r for every response: error set or unset, files, insertion-point patches,
+   warnings, each present or absent, whatever follows the encoding *)
+Theorem response_roundtrip r rest : response_ok r = true ->
+  unmarshal_response (marshal_response r ++ rest) = Some r.
+Proof.
+  destruct r as [e c w]. unfold response_ok. cbn [rs_error rs_contents rs_warnings]. intro H.
+  apply andb_true_iff in H as [H Hw]. apply andb_true_iff in H as [He Hc].
+  unfold unmarshal_response, marshal_response.
+  assert (Hlen : (4 <= S (List.length (enc (enc_response (mkresp e c w)) ++ rest)) \/ (e = None /\ c = None /\ w = None))%nat).
+  { unfold enc_response, wstruct. cbn [rs_error rs_contents rs_warnings]. rewrite app_length, enc_length.
+    destruct e, c, w; cbn [emit lay_response omap wsize]; try (left; lia). right. auto. }
+  destruct Hlen as [Hlen|[-> [-> ->]]]; [|reflexivity].
+  remember (S (List.length (enc (enc_response (mkresp e c w)) ++ rest))) as n eqn:En. clear En.
+  do 4 (destruct n as [|n]; [lia|]).
+  unfold enc_response, wstruct. cbn [rs_error rs_contents rs_warnings]. unfold response0.
+  destruct e as [e|], c as [c|], w as [w|]; cbn [omap emit lay_response oall] in *;
+    rewrite enc_struct_unfold, ?enc_fields_go_cons; change (enc_fields_go []) with [x00]; rewrite <- ?app_assoc;
+    try (apply andb_true_iff in Hc as [Hc1 Hc2]); try (unfold strs_ok in Hw; apply andb_true_iff in Hw as [Hw1 Hw2]).
+  - rewrite rr_error, rr_contents, rr_warnings by assumption. cbn [rs_error rs_contents rs_warnings app]. rewrite rr_stop. reflexivity.
+  - rewrite rr_error, rr_contents by assumption. cbn [rs_error rs_contents rs_warnings app]. rewrite rr_stop. reflexivity.
+  - rewrite rr_error, rr_warnings by assumption. cbn [rs_error rs_contents rs_warnings app]. rewrite rr_stop. reflexivity.
+  - rewrite rr_error by assumption. cbn [rs_error rs_contents rs_warnings app]. rewrite rr_stop. reflexivity.
+  - rewrite rr_contents, rr_warnings by assumption. cbn [rs_error rs_contents rs_warnings app]. rewrite rr_stop. reflexivity.
+  - rewrite rr_contents by assumption. cbn [rs_error rs_contents rs_warnings app]. rewrite rr_stop. reflexivity.
+  - rewrite rr_warnings by assumption. cbn [rs_error rs_contents rs_warnings app]. rewrite rr_stop. reflexivity.
+  - cbn [app]. rewrite rr_stop. reflexivity.
+Qed.
+
+(* ================================================================ 8. wf_request implies encodability *)
+
+Lemma wfb_list et l :
+  wfb (WList et l) = in_srangeb 4 (Z.of_nat (List.length l)) && forallb (fun x => ttype_eqb (wtype x) et && wfb x) l.
+Proof. reflexivity. Qed.
+
+Lemma wfb_struct fs :
+  wfb (WStruct fs) = forallb (fun f : wfield => ttype_eqb (wtype (snd f)) (fst (fst f)) && in_srangeb 2 (snd (fst f)) && wfb (snd f)) fs.
+Proof. cbn [wfb]. induction fs as [|[[t i] x] r IH]; [reflexivity|]. cbn [forallb fst snd]. rewrite IH. reflexivity. Qed.
+
+Lemma wfb_map kt vt l :
+  wfb (WMap kt vt l) = in_srangeb 4 (Z.of_nat (List.length l)) &&
+    forallb (fun kv => ttype_eqb (wtype (fst kv)) kt && ttype_eqb (wtype (snd kv)) vt && wfb (fst kv) && wfb (snd kv)) l.
+Proof. cbn [wfb]. f_equal. induction l as [|[k x] r IH]; [reflexivity|]. cbn [forallb fst snd]. rewrite IH. reflexivity. Qed.
+
+(* slots against a layout: the value has the declared wire type and is itself encodable *)
+Fixpoint slots_ok (lay : list (ttype * Z)) (sl : slots) : bool :=
+  match lay, sl with
+  | (t, _) :: lay', Some w :: sl' => ttype_eqb (wtype w) t && wfb w && slots_ok lay' sl'
+  | _ :: lay', None :: sl' => slots_ok lay' sl'
+  | _, _ => true
+  end.
+
+Lemma wfb_wstruct lay sl :
+  forallb (fun k => in_srangeb 2 (snd k)) lay = true -> slots_ok lay sl = true -> wfb (wstruct lay sl) = true.
+Proof.
+  unfold wstruct. rewrite wfb_struct. revert sl.
+  induction lay as [|[t id] lay IH]; intros sl Hl Hs; [destruct sl; reflexivity|].
+  cbn [forallb snd] in Hl. apply andb_true_iff in Hl as [Hid Hl].
+  destruct sl as [|[w|] sl]; cbn [emit]; [reflexivity| |].
+  - cbn [slots_ok] in Hs. apply andb_true_iff in Hs as [Hs Hr]. apply andb_true_iff in Hs as [Ht Hw].
+    cbn [forallb fst snd]. rewrite Ht, Hid, Hw, (IH sl Hl Hr). reflexivity.
+  - cbn [slots_ok] in Hs. apply IH; assumption.
+Qed.
+
+Lemma wfb_structs {A} (e : A -> wval) (p : A -> bool) l :
+  (forall x, p x = true -> wtype (e x) = T_STRUCT /\ wfb (e x) = true) ->
+  len_ok l = true -> forallb p l = true -> wfb (w_structs e l) = true.
+Proof.
+  intros He Hl Hp. unfold w_structs. rewrite wfb_list, map_length. unfold len_ok in Hl. rewrite Hl. cbn [andb].
+  rewrite forallb_forall in *. intros w Hw. apply in_map_iff in Hw as [x [<- Hx]].
+  destruct (He x (Hp x Hx)) as [-> ->]. reflexivity.
+Qed.
+
+Lemma wfb_strs l : strs_ok l = true -> wfb (w_strs l) = true.
+Proof.
+  unfold strs_ok, w_strs. intro H. apply andb_true_iff in H as [Hl Hp].
+  rewrite wfb_list, map_length. unfold len_ok in Hl. rewrite Hl. cbn [andb].
+  rewrite forallb_forall in *. intros w Hw. apply in_map_iff in Hw as [x [<- Hx]]. cbn [wtype wfb].
+  exact (Hp x Hx).
+Qed.
+
+(* splitting a conjunction of booleans in a hypothesis *)
+Ltac bsplit H := repeat match type of H with _ && _ = true => let H2 := fresh H in apply andb_true_iff in H as [H H2] end.
+Ltac bsplit_all := repeat match goal with H : _ && _ = true |- _ => let H2 := fresh H in apply andb_true_iff in H as [H H2] end.
+(* a struct built through wstruct: ids of the layout in range (by computation), then slot by slot *)
+Ltac wfs := apply wfb_wstruct; [reflexivity|]; cbn [slots_ok]; rewrite ?andb_true_iff; repeat split; try reflexivity; try assumption.
+
+Lemma reference_wfb r : reference_ok r = true -> wtype (enc_reference r) = T_STRUCT /\ wfb (enc_reference r) = true.
+Proof.
+  destruct r as [n i]. unfold reference_ok, enc_reference. cbn [ref_name ref_index]. intro H. bsplit_all.
+  split; [reflexivity|]. unfold lay_reference. wfs.
+Qed.
+
+Lemma annotation_wfb a : annotation_ok a = true -> wtype (enc_annotation a) = T_STRUCT /\ wfb (enc_annotation a) = true.
+Proof.
+  destruct a as [k v]. unfold annotation_ok, enc_annotation. cbn [an_key an_values]. intro H. bsplit_all.
+  split; [reflexivity|]. unfold lay_annotation. wfs. apply wfb_strs. assumption.
+Qed.
+
+Lemma annos_wfb l : annos_ok l = true -> wfb (enc_annos l) = true.
+Proof. unfold annos_ok. intro H. bsplit_all. eapply wfb_structs; [apply annotation_wfb|assumption|assumption]. Qed.
+
+Lemma cat_wfb c : wfb (WI32 (cat_z c)) = true.
+Proof. destruct c; reflexivity. Qed.
+Lemma req_wfb c : wfb (WI32 (req_z c)) = true.
+Proof. destruct c; reflexivity. Qed.
+
+Lemma enc_ty_wtype t : wtype (enc_ty t) = T_STRUCT.
+Proof. destruct t. reflexivity. Qed.
+
+Lemma ty_wfb : forall t, ty_ok t = true -> wfb (enc_ty t) = true.
+Proof.
+  induction t as [n k v c an cat r td IHk IHv] using ty_ind'. cbn [ty_ok enc_ty]. intro H.
+  repeat rewrite andb_true_iff in H. destruct H as [[[[[Hn Hk] Hv] Hc] Han] Hr].
+  unfold len_ok in Hn, Hc. unfold lay_type. apply wfb_wstruct; [reflexivity|].
+  destruct k as [k|]; destruct v as [v|]; destruct r as [r|]; destruct td as [td|]; cbn [omap slots_ok oall] in *;
+    rewrite ?enc_ty_wtype;
+    try rewrite (IHk _ eq_refl Hk); try rewrite (IHv _ eq_refl Hv);
+    try (destruct (reference_wfb _ Hr) as [Tr Ir]; rewrite Tr, Ir);
+    rewrite (annos_wfb _ Han), cat_wfb; cbn [wtype wfb]; rewrite Hn, Hc; reflexivity.
+Qed.
+
+Lemma extra_wfb e : extra_ok e = true -> wtype (enc_extra e) = T_STRUCT /\ wfb (enc_extra e) = true.
+Proof.
+  destruct e as [b i n s]. unfold extra_ok, enc_extra. cbn [ex_is_enum ex_index ex_name ex_sel]. intro H. bsplit_all.
+  split; [reflexivity|]. unfold lay_extra. wfs.
+Qed.
+
+Lemma enc_cv_wtype c : wtype (enc_cv c) = T_STRUCT.
+Proof. destruct c; reflexivity. Qed.
+
+Lemma tv_wfb i w : (i < 6)%nat -> ttype_eqb (wtype w) (fst (nth i lay_typedvalue nokey)) = true -> wfb w = true ->
+  wfb (tv i w) = true.
+Proof.
+  intros Hi Ht Hw. unfold tv. apply wfb_wstruct; [reflexivity|].
+  do 6 (destruct i as [|i]; [cbn in Ht |- *; rewrite Ht, Hw; reflexivity|]). lia.
+Qed.
+
+Lemma cv_shape ty typed extra : wfb typed = true -> wtype typed = T_STRUCT -> in_srangeb 4 ty = true ->
+  match extra with Some w => wtype w = T_STRUCT /\ wfb w = true | None => True end ->
+  wfb (cv ty typed extra) = true.
+Proof.
+  intros Ht Hty Hi He. unfold cv, lay_constvalue. apply wfb_wstruct; [reflexivity|].
+  destruct extra as [w|]; cbn [slots_ok wtype wfb]; [destruct He as [-> ->]|]; rewrite Ht, Hty, Hi; reflexivity.
+Qed.
+
+Lemma cv_wfb : forall c, cv_ok c = true -> wfb (enc_cv c) = true.
+Proof.
+  induction c as [b|z|s|s e|l IH|l IH] using const_value_ind'; cbn [cv_ok enc_cv]; intro H.
+  - apply cv_shape; [|reflexivity|reflexivity|exact I]. apply tv_wfb; [lia|reflexivity|]. cbn [wfb].
+    apply Z.ltb_lt in H. apply andb_true_iff. split; [apply Z.leb_le; lia|apply Z.ltb_lt; exact H].
+  - apply cv_shape; [|reflexivity|reflexivity|exact I]. apply tv_wfb; [lia|reflexivity|exact H].
+  - apply cv_shape; [|reflexivity|reflexivity|exact I]. apply tv_wfb; [lia|reflexivity|exact H].
+  - apply andb_true_iff in H as [Hs He]. apply cv_shape; [|reflexivity|reflexivity|].
+    + apply tv_wfb; [lia|reflexivity|exact Hs].
+    + destruct e as [e|]; cbn [omap oall] in *; [apply extra_wfb; exact He|exact I].
+  - apply andb_true_iff in H as [Hl Hp]. apply cv_shape; [|reflexivity|reflexivity|exact I].
+    apply tv_wfb; [lia|reflexivity|]. rewrite wfb_list, map_length. unfold len_ok in Hl. rewrite Hl. cbn [andb].
+    rewrite forallb_forall in *. intros w Hw. apply in_map_iff in Hw as [x [<- Hx]].
+    rewrite enc_cv_wtype. rewrite Forall_forall in IH. rewrite (IH x Hx (Hp x Hx)). reflexivity.
+  - apply andb_true_iff in H as [Hl Hp]. apply cv_shape; [|reflexivity|reflexivity|exact I].
+    apply tv_wfb; [lia|reflexivity|]. rewrite wfb_list, map_length. unfold len_ok in Hl. rewrite Hl. cbn [andb].
+    rewrite forallb_forall in *. intros w Hw. apply in_map_iff in Hw as [[k v] [<- Hx]].
+    rewrite Forall_forall in IH. destruct (IH _ Hx) as [Ik Iv]. specialize (Hp _ Hx). cbn [fst snd] in *.
+    apply andb_true_iff in Hp as [Hk Hv]. cbn [wtype]. change (ttype_eqb T_STRUCT T_STRUCT) with true. cbn [andb].
+    unfold lay_mapconst. apply wfb_wstruct; [reflexivity|]. cbn [slots_ok]. rewrite !enc_cv_wtype, (Ik Hk), (Iv Hv). reflexivity.
+Qed.
+
+Lemma namespace_wfb n : namespace_ok n = true -> wtype (enc_namespace n) = T_STRUCT /\ wfb (enc_namespace n) = true.
+Proof.
+  destruct n as [l n a]. unfold namespace_ok, enc_namespace. cbn [ns_language ns_name ns_annos]. intro H. bsplit_all.
+  split; [reflexivity|]. unfold lay_namespace. wfs. apply annos_wfb. assumption.
+Qed.
+
+Lemma typedef_wfb t : typedef_ok t = true -> wtype (enc_typedef t) = T_STRUCT /\ wfb (enc_typedef t) = true.
+Proof.
+  destruct t as [t a an c]. unfold typedef_ok, enc_typedef. cbn [td_type td_alias td_annos td_comments]. intro H. bsplit_all.
+  split; [reflexivity|]. unfold lay_typedef. wfs; [rewrite enc_ty_wtype; reflexivity|apply ty_wfb; assumption|apply annos_wfb; assumption].
+Qed.
+
+Lemma enum_value_wfb v : enum_value_ok v = true -> wtype (enc_enum_value v) = T_STRUCT /\ wfb (enc_enum_value v) = true.
+Proof.
+  destruct v as [n v an c]. unfold enum_value_ok, enc_enum_value. cbn [ev_name ev_value ev_annos ev_comments]. intro H. bsplit_all.
+  split; [reflexivity|]. unfold lay_enumvalue. wfs. apply annos_wfb. assumption.
+Qed.
+
+Lemma enum_wfb e : enum_ok e = true -> wtype (enc_enum e) = T_STRUCT /\ wfb (enc_enum e) = true.
+Proof.
+  destruct e as [n v an c]. unfold enum_ok, enc_enum. cbn [en_name en_values en_annos en_comments]. intro H. bsplit_all.
+  split; [reflexivity|]. unfold lay_enum. wfs; [eapply wfb_structs; [apply enum_value_wfb|assumption|assumption]|apply annos_wfb; assumption].
+Qed.
+
+Lemma constant_wfb c : constant_ok c = true -> wtype (enc_constant c) = T_STRUCT /\ wfb (enc_constant c) = true.
+Proof.
+  destruct c as [n t v an c]. unfold constant_ok, enc_constant. cbn [co_name co_type co_value co_annos co_comments]. intro H. bsplit_all.
+  split; [reflexivity|]. unfold lay_constant.
+  wfs; [rewrite enc_ty_wtype; reflexivity|apply ty_wfb; assumption|rewrite enc_cv_wtype; reflexivity|apply cv_wfb; assumption|apply annos_wfb; assumption].
+Qed.
+
+Lemma field_wfb f : field_ok f = true -> wtype (enc_field f) = T_STRUCT /\ wfb (enc_field f) = true.
+Proof.
+  destruct f as [i n r t d an c]. unfold field_ok, enc_field. cbn [fd_id fd_name fd_req fd_type fd_default fd_annos fd_comments]. intro H.
+  repeat rewrite andb_true_iff in H. destruct H as [[[[[Hi Hn] Ht] Hd] Han] Hc].
+  split; [reflexivity|]. unfold lay_field. apply wfb_wstruct; [reflexivity|].
+  destruct d as [d|]; cbn [omap oall slots_ok] in *; rewrite enc_ty_wtype, ?enc_cv_wtype, (ty_wfb _ Ht), ?(cv_wfb _ Hd), (annos_wfb _ Han), req_wfb;
+    cbn [wtype wfb]; unfold len_ok, i32_ok in *; rewrite Hi, Hn, Hc; reflexivity.
+Qed.
+
+Lemma fields_wfb l : fields_ok l = true -> wfb (enc_fields l) = true.
+Proof. unfold fields_ok. intro H. bsplit_all. eapply wfb_structs; [apply field_wfb|assumption|assumption]. Qed.
+
+Lemma kind_wfb k : wfb (WStr (sl_kind_name k)) = true.
+Proof. destruct k; reflexivity. Qed.
+
+Lemma struct_like_wfb s : struct_like_ok s = true -> wtype (enc_struct_like s) = T_STRUCT /\ wfb (enc_struct_like s) = true.
+Proof.
+  destruct s as [k n f an c]. unfold struct_like_ok, enc_struct_like. cbn [sl_category sl_name sl_fields sl_annos sl_comments]. intro H. bsplit_all.
+  split; [reflexivity|]. unfold lay_structlike. wfs; [apply kind_wfb|apply fields_wfb; assumption|apply annos_wfb; assumption].
+Qed.
+
+Lemma function_wfb f : function_ok f = true -> wtype (enc_function f) = T_STRUCT /\ wfb (enc_function f) = true.
+Proof.
+  destruct f as [n o v t a th an c]. unfold function_ok, enc_function.
+  cbn [fn_name fn_oneway fn_void fn_type fn_args fn_throws fn_annos fn_comments]. intro H. bsplit_all.
+  split; [reflexivity|]. unfold lay_function.
+  wfs; [rewrite enc_ty_wtype; reflexivity|apply ty_wfb; assumption|apply fields_wfb; assumption|apply fields_wfb; assumption|apply annos_wfb; assumption].
+Qed.
+
+Lemma service_wfb s : service_ok s = true -> wtype (enc_service s) = T_STRUCT /\ wfb (enc_service s) = true.
+Proof.
+  destruct s as [n e f an r c]. unfold service_ok, enc_service. cbn [sv_name sv_extends sv_functions sv_annos sv_ref sv_comments]. intro H.
+  repeat rewrite andb_true_iff in H. destruct H as [[[[[Hn He] [Hfl Hf]] Han] Hr] Hc].
+  split; [reflexivity|]. unfold lay_service. apply wfb_wstruct; [reflexivity|].
+  assert (Hfs : wfb (w_structs enc_function f) = true) by (eapply wfb_structs; [apply function_wfb|assumption|assumption]).
+  destruct r as [r|]; cbn [omap oall slots_ok] in *; [destruct (reference_wfb _ Hr) as [Tr Ir]; rewrite Tr, Ir|];
+    rewrite Hfs, (annos_wfb _ Han); cbn [wtype wfb]; unfold len_ok in *; rewrite Hn, He, Hc; reflexivity.
+Qed.
+
+Lemma name2cat_wfb m : oall (list_ok (fun kv : bytes * category => len_ok (fst kv))) m = true -> wfb (enc_name2cat m) = true.
+Proof.
+  unfold enc_name2cat. intro H. rewrite wfb_map, map_length.
+  destruct m as [l|]; cbn [oall] in H; [|reflexivity].
+  unfold list_ok in H. apply andb_true_iff in H as [Hl Hp]. unfold len_ok in Hl. rewrite Hl. cbn [andb].
+  rewrite forallb_forall in *. intros w Hw. apply in_map_iff in Hw as [[k c] [<- Hx]]. cbn [fst snd wtype].
+  specialize (Hp _ Hx). cbn [fst] in Hp. rewrite cat_wfb. cbn [wfb]. unfold len_ok in Hp. rewrite Hp. reflexivity.
+Qed.
+
+Lemma list_ok_structs {A} (e : A -> wval) (p : A -> bool) l :
+  (forall x, p x = true -> wtype (e x) = T_STRUCT /\ wfb (e x) = true) -> list_ok p l = true -> wfb (w_structs e l) = true.
+Proof. intros He H. unfold list_ok in H. apply andb_true_iff in H as [Hl Hp]. eapply wfb_structs; eassumption. Qed.
+
+Fixpoint ast_ok_kids (l : list (option ast)) : bool :=
+  match l with [] => true | Some k :: r => ast_ok k && ast_ok_kids r | None :: r => ast_ok_kids r end.
+Lemma ast_ok_eq f kids : ast_ok (Ast f kids) = file_ok f && ast_ok_kids kids.
+Proof. reflexivity. Qed.
+
+Lemma enc_ast_wtype a : wtype (enc_ast a) = T_STRUCT.
+Proof. destruct a. reflexivity. Qed.
+
+Lemma len_ok_app_r {A} (a b : list A) : len_ok (a ++ b) = true -> len_ok b = true.
+Proof.
+  unfold len_ok. intro H. apply in_srangeb_spec in H. apply in_srangeb_spec.
+  rewrite in_srange_4 in *. rewrite app_length in H. lia.
+Qed.
+
+Fixpoint kids_wfb (l : list (option ast)) : bool :=
+  match l with [] => true | Some k :: r => wfb (enc_ast k) && kids_wfb r | None :: r => kids_wfb r end.
+
+(* one node: its own fields by file_ok, its kids by hypothesis *)
+Lemma node_wfb f kids : file_ok f = true -> kids_wfb kids = true -> wfb (enc_ast (Ast f kids)) = true.
+Proof.
+  rewrite enc_ast_eq. intros Hf Hk. unfold file_ok in Hf.
+  repeat rewrite andb_true_iff in Hf.
+  destruct Hf as [[[[[[[[[[[Hn Hi] Hcpp] Hns] Htd] Hco] Hen] Hst] Hun] Hex] Hsv] Hnc].
+  assert (Hname : len_ok (f_filename f) = true) by (eapply len_ok_app_r; exact Hn).
+  assert (Hincs : wfb (WList T_STRUCT (enc_incs' (f_includes f) kids)) = true).
+  { unfold list_ok in Hi. apply andb_true_iff in Hi as [Hil Hip].
+    rewrite wfb_list.
+    assert (Hlen : (List.length (enc_incs' (f_includes f) kids) <= List.length (f_includes f))%nat).
+    { clear. generalize kids. induction (f_includes f) as [|i is IHi]; intros [|k ks]; cbn [enc_incs' List.length]; try lia.
+      specialize (IHi ks). lia. }
+    assert (Hl : in_srangeb 4 (Z.of_nat (List.length (enc_incs' (f_includes f) kids))) = true).
+    { unfold len_ok in Hil. apply in_srangeb_spec in Hil. apply in_srangeb_spec. rewrite in_srange_4 in *. lia. }
+    rewrite Hl. cbn [andb]. clear Hl Hlen Hil.
+    revert Hip Hk. generalize (f_includes f) as is. induction kids as [|k ks IHks]; intros [|i is] Hip Hk; cbn [enc_incs' forallb]; try reflexivity.
+    cbn [forallb] in Hip. apply andb_true_iff in Hip as [Hi1 Hip].
+    assert (Hkk : kids_wfb ks = true /\ match k with Some x => wfb (enc_ast x) = true | None => True end).
+    { destruct k; cbn [kids_wfb] in Hk; [apply andb_true_iff in Hk as [? ?]; auto|auto]. }
+    destruct Hkk as [Hks Hkx]. rewrite (IHks is Hip Hks), andb_true_r.
+    cbn [wtype]. change (ttype_eqb T_STRUCT T_STRUCT) with true. cbn [andb].
+    unfold lay_include. apply wfb_wstruct; [reflexivity|].
+    destruct i as [p rf u]. cbn [in_path in_used] in *.
+    destruct k as [x|]; destruct u as [u|]; cbn [omap slots_ok wtype wfb]; rewrite ?enc_ast_wtype, ?Hkx;
+      unfold len_ok in Hi1; rewrite Hi1; reflexivity. }
+  unfold lay_thrift. apply wfb_wstruct; [reflexivity|]. cbn [slots_ok].
+  rewrite Hincs, (wfb_strs _ Hcpp), (list_ok_structs _ _ _ namespace_wfb Hns), (list_ok_structs _ _ _ typedef_wfb Htd),
+    (list_ok_structs _ _ _ constant_wfb Hco), (list_ok_structs _ _ _ enum_wfb Hen), (list_ok_structs _ _ _ struct_like_wfb Hst),
+    (list_ok_structs _ _ _ struct_like_wfb Hun), (list_ok_structs _ _ _ struct_like_wfb Hex), (list_ok_structs _ _ _ service_wfb Hsv),
+    (name2cat_wfb _ Hnc).
+  cbn [wtype wfb]. unfold len_ok in Hname. rewrite Hname. reflexivity.
+Qed.
+
+Lemma ast_wfb_both :
+  (forall a, ast_ok a = true -> wfb (enc_ast a) = true) /\
+  (forall ks, ast_ok_kids ks = true -> kids_wfb ks = true).
+Proof.
+  apply ast_kids_ind.
+  - intros f kids IH H. rewrite ast_ok_eq in H. apply andb_true_iff in H as [Hf Hk]. apply node_wfb; auto.
+  - reflexivity.
+  - intros k r IHk IHr H. cbn [ast_ok_kids] in H. apply andb_true_iff in H as [Hk Hr]. cbn [kids_wfb]. rewrite (IHk Hk), (IHr Hr). reflexivity.
+  - intros r IHr H. exact (IHr H).
+Qed.
+Definition ast_wfb := proj1 ast_wfb_both.
+
+(* the decidable predicate on the request implies encodability *)
+Theorem wf_request_encodable r : wf_request r = true -> wfb (enc_request r) = true.
+Proof.
+  destruct r as [v g p l o rc a]. unfold wf_request, enc_request.
+  cbn [rq_version rq_gen_params rq_plugin_params rq_language rq_output_path rq_recursive rq_ast]. intro H.
+  repeat rewrite andb_true_iff in H. destruct H as [[[[[Hv Hg] Hp] Hl] Ho] Ha].
+  unfold lay_request. apply wfb_wstruct; [reflexivity|]. cbn [slots_ok].
+  rewrite (wfb_strs _ Hg), (wfb_strs _ Hp), enc_ast_wtype, (ast_wfb _ Ha). cbn [wtype wfb].
+  unfold len_ok in *. rewrite Hv, Hl, Ho. reflexivity.
+Qed.
+
+(* ---- compression keeps a request encodable ---- *)
+
+Lemma stub_wfb n : len_ok (ref_prefix ++ n) = true -> wfb (enc_ast (stub n)) = true.
+Proof.
+  intro H. unfold stub. rewrite enc_ast_eq. unfold empty_file. cbn [f_filename f_includes f_cpp_includes f_namespaces f_typedefs f_constants f_enums f_structs f_unions f_exceptions f_services f_name2cat enc_incs'].
+  unfold lay_thrift. apply wfb_wstruct; [reflexivity|]. cbn [slots_ok wtype wfb]. unfold len_ok in H. rewrite H. reflexivity.
+Qed.
+
+Lemma file_ok_name f : file_ok f = true -> len_ok (ref_prefix ++ f_filename f) = true.
+Proof. unfold file_ok. intro H. repeat rewrite andb_true_iff in H. tauto. Qed.
+
+Lemma compress_wfb_both :
+  (forall a, forall s, ast_ok a = true -> wfb (enc_ast (fst (compress s a))) = true) /\
+  (forall ks, forall s, ast_ok_kids ks = true -> kids_wfb (fst (compress_kids stub s ks)) = true).
+Proof.
+  apply ast_kids_ind.
+  - intros f kids IH s H. rewrite ast_ok_eq in H. apply andb_true_iff in H as [Hf Hk].
+    unfold compress. rewrite compress_eq. specialize (IH s Hk). destruct (compress_kids stub s kids) as [k' s']. cbn [fst] in *.
+    apply node_wfb; assumption.
+  - reflexivity.
+  - intros k r IHk IHr s H. cbn [ast_ok_kids] in H. apply andb_true_iff in H as [Hk Hr]. cbn [compress_kids].
+    destruct (mem (ast_name k) s).
+    + specialize (IHr s Hr). destruct (compress_kids stub s r) as [r' s']. cbn [fst kids_wfb] in *.
+      rewrite IHr, andb_true_r. apply stub_wfb. destruct k as [f kids]. rewrite ast_ok_eq in Hk. apply andb_true_iff in Hk as [Hf _].
+      apply file_ok_name. exact Hf.
+    + specialize (IHk (ast_name k :: s) Hk). unfold compress in IHk.
+      destruct (compress_gen stub (ast_name k :: s) k) as [k' s1]. cbn [fst] in *.
+      specialize (IHr s1 Hr). destruct (compress_kids stub s1 r) as [r' s2]. cbn [fst kids_wfb] in *.
+      rewrite IHk, IHr. reflexivity.
+  - intros r IHr s H. cbn [ast_ok_kids] in H. cbn [compress_kids].
+    specialize (IHr s H). destruct (compress_kids stub s r) as [r' s']. cbn [fst kids_wfb] in *. exact IHr.
+Qed.
+
+Theorem wf_request_encodable_compressed r : wf_request r = true ->
+  wfb (enc_request (with_ast r (compress_top (rq_ast r)))) = true.
+Proof.
+  destruct r as [v g p l o rc a]. unfold wf_request, enc_request, with_ast.
+  cbn [rq_version rq_gen_params rq_plugin_params rq_language rq_output_path rq_recursive rq_ast]. intro H.
+  repeat rewrite andb_true_iff in H. destruct H as [[[[[Hv Hg] Hp] Hl] Ho] Ha].
+  unfold lay_request. apply wfb_wstruct; [reflexivity|]. cbn [slots_ok].
+  unfold compress_top. rewrite (wfb_strs _ Hg), (wfb_strs _ Hp), enc_ast_wtype, (proj1 compress_wfb_both a [] Ha). cbn [wtype wfb].
+  unfold len_ok in *. rewrite Hv, Hl, Ho. reflexivity.
+Qed.
+
+(* the round trips with the hypothesis on the request itself *)
+Theorem request_roundtrip_wf r fuel :
+  wt_ast (rq_ast r) = true -> wf_request r = true ->
+  unmarshal_request fuel (marshal_request r) = UOk (norm_request r).
+Proof. intros Hwt Hwf. apply request_roundtrip; [exact Hwt|apply wf_request_encodable; exact Hwf]. Qed.
+
+Theorem request_roundtrip_compressed_wf r fuel :
+  wf_graph (rq_ast r) -> wt_ast (rq_ast r) = true -> wf_request r = true -> (height (rq_ast r) <= fuel)%nat ->
+  unmarshal_request fuel (marshal_request_compressed r) = UOk (norm_request r).
+Proof.
+  intros Hg Hwt Hwf Hh. apply request_roundtrip_compressed; [exact Hg|exact Hwt|apply wf_request_encodable_compressed; exact Hwf|exact Hh].
+Qed.
+
+(* ================================================================ 9. the plugin loop: what each plugin is sent *)
+
+Lemma with_plugin_params_twice r a b : with_plugin_params (with_plugin_params r a) b = with_plugin_params r b.
+Proof. reflexivity. Qed.
+
+(* what plugin d must be sent when the compiler's request is req *)
+Definition sent_to (req : request) (d : desc) : bytes * request :=
+  (plugin_name d, with_plugin_params req (pack (d_opts d))).
+
+Section LoopFacts.
+  Variable run : bytes -> request -> plugin_result.
+
+  (* the requests actually sent are a prefix of "every plugin gets the compiler's request with
+     the pack of its OWN options": nothing of an earlier plugin's options survives in the shared
+     request object, whatever the option lists are (empty ones included) *)
+  Lemma generate_loop_trace : forall ds m shown req,
+    exists k, snd (generate_loop run m shown req ds) = firstn k (map (sent_to req) ds).
+  Proof.
+    induction ds as [|d rest IH]; intros m shown req; [exists O; reflexivity|].
+    cbn [generate_loop map].
+    destruct (outcome (plugin_name d) (run (plugin_name d) (with_plugin_params req (pack (d_opts d))))) as [ws|ws cs].
+    - exists 1%nat. reflexivity.
+    - destruct (feed m (map to_gen cs)) as [m'| |].
+      + destruct (IH m' (shown ++ ws) (with_plugin_params req (pack (d_opts d)))) as [k Hk].
+        destruct (generate_loop run m' (shown ++ ws) (with_plugin_params req (pack (d_opts d))) rest) as [res tr].
+        cbn [snd] in *. exists (S k). cbn [firstn]. rewrite Hk. reflexivity.
+      + exists 1%nat. reflexivity.
+      + exists 1%nat. reflexivity.
+  Qed.
+
+  Theorem generate_loop_sends_own_options ds m shown req i name q :
+    nth_error (snd (generate_loop run m shown req ds)) i = Some (name, q) ->
+    exists d, nth_error ds i = Some d /\ name = plugin_name d /\
+              rq_plugin_params q = pack (d_opts d) /\
+              rq_version q = rq_version req /\ rq_gen_params q = rq_gen_params req /\
+              rq_language q = rq_language req /\ rq_output_path q = rq_output_path req /\
+              rq_recursive q = rq_recursive req /\ rq_ast q = rq_ast req.
+  Proof.
+    destruct (generate_loop_trace ds m shown req) as [k Hk]. rewrite Hk. intro H.
+    assert (H' : nth_error (map (sent_to req) ds) i = Some (name, q)).
+    { revert i H. generalize (map (sent_to req) ds) as l. clear. induction k as [|k IH]; intros l i H; [destruct i; discriminate|].
+      destruct l as [|x l]; [destruct i; discriminate|]. destruct i as [|i]; [exact H|]. cbn [firstn nth_error] in *. apply IH. exact H. }
+    rewrite nth_error_map in H'. destruct (nth_error ds i) as [d|]; [|discriminate].
+    injection H' as <- <-. exists d. repeat split; reflexivity.
+  Qed.
+
+  (* the result is the plugin loop of run_plugins over the answers to exactly those requests *)
+  Theorem generate_loop_result : forall ds m shown req,
+    fst (generate_loop run m shown req ds) =
+    run_plugins m shown (map (fun d => (plugin_name d, run (plugin_name d) (snd (sent_to req d)))) ds).
+  Proof.
+    induction ds as [|d rest IH]; intros m shown req; [reflexivity|].
+    cbn [generate_loop map run_plugins sent_to snd].
+    destruct (outcome (plugin_name d) (run (plugin_name d) (with_plugin_params req (pack (d_opts d))))) as [ws|ws cs]; [reflexivity|].
+    destruct (feed m (map to_gen cs)) as [m'| |]; try reflexivity.
+    specialize (IH m' (shown ++ ws) (with_plugin_params req (pack (d_opts d)))).
+    destruct (generate_loop run m' (shown ++ ws) (with_plugin_params req (pack (d_opts d))) rest) as [res tr].
+    cbn [fst] in *. rewrite IH. reflexivity.
+  Qed.
+
+  (* when the run succeeds every plugin was invoked, in command-line order *)
+  Theorem generate_loop_all_invoked : forall ds m shown req shown' m',
+    fst (generate_loop run m shown req ds) = ROk shown' m' ->
+    snd (generate_loop run m shown req ds) = map (sent_to req) ds.
+  Proof.
+    induction ds as [|d rest IH]; intros m shown req shown' m2; [reflexivity|].
+    cbn [generate_loop map].
+    destruct (outcome (plugin_name d) (run (plugin_name d) (with_plugin_params req (pack (d_opts d))))) as [ws|ws cs]; [discriminate|].
+    destruct (feed m (map to_gen cs)) as [m'| |]; try discriminate.
+    specialize (IH m' (shown ++ ws) (with_plugin_params req (pack (d_opts d))) shown' m2).
+    destruct (generate_loop run m' (shown ++ ws) (with_plugin_params req (pack (d_opts d))) rest) as [res tr].
+    cbn [fst snd] in *. intro H. rewrite (IH H). reflexivity.
+  Qed.
+End LoopFacts.
